@@ -157,6 +157,8 @@ var _ driver.Valuer = &Valuer{}
 type Scanner struct {
 	*Descriptor
 	value reflect.Value
+	// WasNull reports whether the most recent Scan was handed a NULL.
+	WasNull bool
 }
 
 func (s *Scanner) Target(value reflect.Value) {
@@ -178,6 +180,7 @@ func (s *Scanner) Scan(src interface{}) error {
 
 	// Keep track of whether our value was empty.
 	isValid := src != nil
+	s.WasNull = src == nil
 
 	if isValid && s.Ptr {
 		s.value.Set(reflect.New(s.Type))
